@@ -58,6 +58,20 @@ class Inv:
             return I(r[0], r[1])
         if self.F.adt_path(ty) != ty and self.F.adt_of(ty) is not None and "<" not in ty:
             ty = self.F.adt_path(ty)
+        if re.search(r"backend::vector::avx2::field::FieldElement2625x4$", ty):
+            b = {"curve25519_dalek::backend::vector::avx2::edwards::ExtendedPoint": 0.007,
+                 "curve25519_dalek::backend::vector::avx2::edwards::CachedPoint": 1.0,
+                 # entries of a lookup table are conversions of ExtendedPoints (mul outputs), never negated in place
+                 "curve25519_dalek::backend::vector::avx2::edwards::CachedPoint#table": 0.007}.get(owner)
+            if b is None:
+                return None     # a bare vector field element has no type invariant (bounds are per operation)
+            vecs = []
+            for k in range(5):
+                bits = [26, 25]      # vector k packs limb 2k (26 bits) in lanes 0,1,4,5 and limb 2k+1 (25 bits) in lanes 2,3,6,7
+                lim = [I(0, int(2 ** (bits[0] + b)) - 1), I(0, int(2 ** (bits[1] + b)) - 1)]
+                lanes = (lim[0], lim[0], lim[1], lim[1], lim[0], lim[0], lim[1], lim[1])
+                vecs.append(("st", (("st", (("arr", lanes),)),)))
+            return ("st", (("arr", tuple(vecs)),))
         if ty in self.fe_adt:
             return self.fe(self.FE_BITS.get(owner, self.FE_BITS["param"]))
         if ty in self.sc_adt:
@@ -115,7 +129,11 @@ class Inv:
                 if targs:
                     # substitute the ADT's single type parameter T (all generic ADTs here have one)
                     fty = re.sub(r"\bT\b", targs[0], fty)
-                own = base if base in self.FE_BITS else owner
+                own = base if (base in self.FE_BITS or base.endswith("avx2::edwards::ExtendedPoint") or base.endswith("avx2::edwards::CachedPoint")) else owner
+                if base.endswith("avx2::edwards::CachedPoint") and owner == "#table":
+                    own = base + "#table"
+                if re.search(r"window::(Naf)?LookupTable\w*$", base):
+                    own = "#table"
                 v = self.value(fty, own, depth + 1)
                 if v is None:
                     return None
